@@ -22,12 +22,12 @@ theorem hexDigitsAux_eq (f n : Nat) (acc : List Char) : hexDigitsAux f n acc = h
     · rw [ih]; simp
 
 theorem hexChar_facts : ∀ d, d < 16 → isHexadecimal (hexChar d) = true ∧ digitVal (hexChar d) = d ∧
-    hexChar d ≠ '}' ∧ hexChar d ≠ replacementChar := by decide +kernel
+    hexChar d ≠ '}' := by decide +kernel
 
 /-- value of a digit string read most significant first, starting from `r` -/
 def hexVal (ds : List Char) (r : Nat) : Nat := ds.foldl (fun acc d => 16 * acc + digitVal d) r
 
-def AllHex (ds : List Char) : Prop := ∀ d ∈ ds, isHexadecimal d = true ∧ d ≠ '}' ∧ d ≠ replacementChar
+def AllHex (ds : List Char) : Prop := ∀ d ∈ ds, isHexadecimal d = true ∧ d ≠ '}'
 
 theorem hexD_allHex (f n : Nat) : AllHex (hexD f n) := by
   induction f generalizing n with
@@ -40,13 +40,13 @@ theorem hexD_allHex (f n : Nat) : AllHex (hexD f n) := by
       simp only [List.mem_singleton] at hd
       subst hd
       have := hexChar_facts n h
-      exact ⟨this.1, this.2.2.1, this.2.2.2⟩
+      exact ⟨this.1, this.2.2⟩
     · simp only [List.mem_append, List.mem_singleton] at hd
       rcases hd with hd | hd
       · exact ih _ d hd
       · subst hd
         have := hexChar_facts (n % 16) (Nat.mod_lt _ (by decide))
-        exact ⟨this.1, this.2.2.1, this.2.2.2⟩
+        exact ⟨this.1, this.2.2⟩
 
 theorem hexD_val (f n : Nat) (h : n < 16 ^ f) : hexVal (hexD f n) 0 = n := by
   induction f generalizing n with
@@ -98,7 +98,7 @@ theorem unquote_uDigits (star : Bool) (ds : List Char) (hds : AllHex ds) (res n 
     have hds' : AllHex ds := fun x hx => hds x (by simp [hx])
     simp only [List.cons_append]
     rw [unquoteAux]
-    simp only [beq_iff_eq, hd.2.2, hd.2.1, ↓reduceIte, hd.1, Bool.not_true, Bool.false_eq_true]
+    simp only [beq_iff_eq, hd.2, ↓reduceIte, hd.1, Bool.not_true, Bool.false_eq_true]
     rw [ih hds']
     simp [hexVal, List.foldl_cons, Nat.add_assoc, Nat.add_comm 1]
 
@@ -125,24 +125,19 @@ theorem unquote_uEscape (star : Bool) (c : Char) (acc tail : List Char) :
   simp only [List.append_nil, List.cons_append, List.nil_append, List.append_assoc]
   -- backslash, `u`, `{`
   rw [unquoteAux]
-  have e1 : ('\\' == replacementChar) = false := by decide
-  have e2 : ('u' == replacementChar) = false := by decide
-  have e3 : ('{' == replacementChar) = false := by decide
-  have e4 : ('}' == replacementChar) = false := by decide
-  simp only [e1, Bool.false_eq_true, ↓reduceIte, beq_self_eq_true]
+  simp only [↓reduceIte, beq_self_eq_true]
   have e5 : (star && '\\' == '*') = false := by simp
   simp only [e5, Bool.false_eq_true, ↓reduceIte]
   rw [unquoteAux]
-  simp only [e2, Bool.false_eq_true, ↓reduceIte]
   have : ('u' == 'n') = false ∧ ('u' == 'r') = false ∧ ('u' == 't') = false ∧ ('u' == '\\') = false ∧ ('u' == '0') = false
       ∧ ('u' == '\'') = false ∧ ('u' == '"') = false ∧ ('u' == 'x') = false := by decide
   simp only [this, Bool.false_eq_true, ↓reduceIte, beq_self_eq_true]
   rw [unquoteAux]
-  simp only [e3, Bool.false_eq_true, ↓reduceIte, beq_self_eq_true]
+  simp only [↓reduceIte, beq_self_eq_true]
   rw [unquote_uDigits star _ hds]
   rw [hval]
   rw [unquoteAux]
-  simp only [e4, Bool.false_eq_true, ↓reduceIte, beq_self_eq_true, Nat.zero_add]
+  simp only [↓reduceIte, beq_self_eq_true, Nat.zero_add]
   have hn : ((hexD 64 c.toNat).length == 0 || decide ((hexD 64 c.toNat).length > 6) || !validRune c.toNat) = false := by
     have h1 : ((hexD 64 c.toNat).length == 0) = false := by
       simp only [beq_eq_false_iff_ne, ne_eq]; omega
@@ -152,15 +147,14 @@ theorem unquote_uEscape (star : Bool) (c : Char) (acc tail : List Char) :
   simp only [hn, Bool.false_eq_true, ↓reduceIte, Char.ofNat_toNat]
 
 /-- one escaped character is read back as that character -/
-theorem unquote_escapeRune (c : Char) (hc : c ≠ replacementChar) (egx : Bool) (acc tail : List Char) :
+theorem unquote_escapeRune (c : Char) (egx : Bool) (acc tail : List Char) :
     unquoteAux false .normal acc (escapeRune c egx ++ tail) = unquoteAux false .normal (c :: acc) tail := by
-  have two (x : Char) (hx : (x == replacementChar) = false) (out : Char)
+  have two (x : Char) (out : Char)
       (hstep : ∀ acc' tl, unquoteAux false .esc acc' (x :: tl) = unquoteAux false .normal (out :: acc') tl) :
       unquoteAux false .normal acc (['\\', x] ++ tail) = unquoteAux false .normal (out :: acc) tail := by
     simp only [List.cons_append, List.nil_append]
     rw [unquoteAux]
-    have e1 : ('\\' == replacementChar) = false := by decide
-    simp only [e1, Bool.false_eq_true, ↓reduceIte, Bool.false_and, beq_self_eq_true]
+    simp only [Bool.false_eq_true, ↓reduceIte, Bool.false_and, beq_self_eq_true]
     exact hstep _ _
   unfold escapeRune
   split
@@ -169,82 +163,70 @@ theorem unquote_escapeRune (c : Char) (hc : c ≠ replacementChar) (egx : Bool) 
       have : c.toNat = 0 := by simpa using h0
       rw [← Char.ofNat_toNat c, this]
     rw [hc0]
-    exact two '0' (by decide) _ (fun acc' tl => by
-      have hx : ('0' == replacementChar) = false := by decide
-      rw [unquoteAux]; simp [hx])
+    exact two '0' _ (fun acc' tl => by
+      rw [unquoteAux]; simp)
   split
   · rename_i _ h; have : c = '\t' := by simpa using h
     subst this
-    exact two 't' (by decide) _ (fun acc' tl => by
-      have hx : ('t' == replacementChar) = false := by decide
-      rw [unquoteAux]; simp [hx])
+    exact two 't' _ (fun acc' tl => by
+      rw [unquoteAux]; simp)
   split
   · rename_i _ _ h; have : c = '\r' := by simpa using h
     subst this
-    exact two 'r' (by decide) _ (fun acc' tl => by
-      have hx : ('r' == replacementChar) = false := by decide
-      rw [unquoteAux]; simp [hx])
+    exact two 'r' _ (fun acc' tl => by
+      rw [unquoteAux]; simp)
   split
   · rename_i _ _ _ h; have : c = '\n' := by simpa using h
     subst this
-    exact two 'n' (by decide) _ (fun acc' tl => by
-      have hx : ('n' == replacementChar) = false := by decide
-      rw [unquoteAux]; simp [hx])
+    exact two 'n' _ (fun acc' tl => by
+      rw [unquoteAux]; simp)
   split
   · rename_i _ _ _ _ h; have : c = '\\' := by simpa using h
     subst this
-    exact two '\\' (by decide) _ (fun acc' tl => by
-      have hx : ('\\' == replacementChar) = false := by decide
-      rw [unquoteAux]; simp [hx])
+    exact two '\\' _ (fun acc' tl => by
+      rw [unquoteAux]; simp)
   split
   · rename_i _ _ _ _ _ h; have : c = '"' := by simpa using h
     subst this
-    exact two '"' (by decide) _ (fun acc' tl => by
-      have hx : ('"' == replacementChar) = false := by decide
-      rw [unquoteAux]; simp [hx])
+    exact two '"' _ (fun acc' tl => by
+      rw [unquoteAux]; simp)
   split
   · rename_i _ _ _ _ _ _ h; have : c = '\'' := by simpa using h
     subst this
-    exact two '\'' (by decide) _ (fun acc' tl => by
-      have hx : ('\'' == replacementChar) = false := by decide
-      rw [unquoteAux]; simp [hx])
+    exact two '\'' _ (fun acc' tl => by
+      rw [unquoteAux]; simp)
   split
   · exact unquote_uEscape false c acc tail
   split
   · rename_i _ _ _ _ hbs _ _ _ _
     simp only [List.cons_append, List.nil_append]
     rw [unquoteAux]
-    have h1 : (c == replacementChar) = false := by simpa using hc
     have h2 : (c == '\\') = false := by simpa using hbs
-    simp [h1, h2]
+    simp [h2]
   · exact unquote_uEscape false c acc tail
 
-theorem unquote_escapeRest (s : List Char) (hs : replacementChar ∉ s) (acc tail : List Char) :
+theorem unquote_escapeRest (s : List Char) (acc tail : List Char) :
     unquoteAux false .normal acc (escapeRest s ++ tail) = unquoteAux false .normal (s.reverse ++ acc) tail := by
   induction s generalizing acc with
   | nil => simp [escapeRest]
   | cons c cs ih =>
-    have hc : c ≠ replacementChar := fun h => hs (by simp [h])
-    have hcs : replacementChar ∉ cs := fun h => hs (by simp [h])
     simp only [escapeRest, List.append_assoc]
-    rw [unquote_escapeRune c hc, ih hcs]
+    rw [unquote_escapeRune c, ih]
     simp
 
-theorem unquote_escapeString_aux (s : List Char) (hs : replacementChar ∉ s) (tail : List Char) :
+theorem unquote_escapeString_aux (s : List Char) (tail : List Char) :
     unquoteAux false .normal [] (escapeString s ++ tail) = unquoteAux false .normal s.reverse tail := by
   cases s with
   | nil => simp [escapeString]
   | cons c cs =>
-    have hc : c ≠ replacementChar := fun h => hs (by simp [h])
-    have hcs : replacementChar ∉ cs := fun h => hs (by simp [h])
     simp only [escapeString, List.append_assoc]
-    rw [unquote_escapeRune c hc, unquote_escapeRest cs hcs]
+    rw [unquote_escapeRune c, unquote_escapeRest cs]
     simp
 
-/-- `rust.Unquote(rust.EscapeString(s), false) = s` for every string without U+FFFD -/
-theorem unquote_escapeString (s : List Char) (hs : replacementChar ∉ s) :
+/-- `rust.Unquote(rust.EscapeString(s), false) = s` for every string -/
+theorem unquote_escapeString (s : List Char) :
     unquote false (escapeString s) = .ok (s, []) := by
-  have := unquote_escapeString_aux s hs []
+  have := unquote_escapeString_aux s []
   simp only [List.append_nil] at this
   unfold unquote
   rw [this]
@@ -254,12 +236,12 @@ theorem trimQuotes_quoted (body : List Char) : trimQuotes ('"' :: (body ++ ['"']
   simp [trimQuotes]
 
 /-- the value of a rendered string literal token -/
-theorem stringValue_strT (s : String) (hs : replacementChar ∉ s.toList) : stringValue (strT s).text = .ok s := by
+theorem stringValue_strT (s : String) : stringValue (strT s).text = .ok s := by
   unfold stringValue strT
-  simp only [String.toList_ofList, trimQuotes_quoted, unquote_escapeString _ hs, String.ofList_toList]
+  simp only [String.toList_ofList, trimQuotes_quoted, unquote_escapeString, String.ofList_toList]
 
-theorem strVal_strT (a : String) (ha : replacementChar ∉ a.toList) : strVal (strT a) = .ok a := by
-  simp [strVal, stringValue_strT a ha]
+theorem strVal_strT (a : String) : strVal (strT a) = .ok a := by
+  simp [strVal, stringValue_strT a]
 
 /-! ## decimal digits -/
 
